@@ -105,6 +105,7 @@ type srcReader struct {
 	base, total, pos int
 	chunk            int
 	end              error
+	dataErr          bool // the last bytes come together with the end error (n > 0, err != nil)
 }
 
 func (s *srcReader) Read(p []byte) (int, error) {
@@ -122,6 +123,9 @@ func (s *srcReader) Read(p []byte) (int, error) {
 		p[i] = vh.PByte(0, s.base+s.pos+i)
 	}
 	s.pos += k
+	if s.dataErr && s.pos >= s.total {
+		return k, s.end
+	}
 	return k, nil
 }
 
@@ -303,6 +307,7 @@ func runOps(r *wrunner, ops []wop) (evs []wev) {
 			if len(parts) > 1 {
 				fmt.Sscanf(parts[1], "%d", &src.chunk)
 			}
+			src.dataErr = !noCap && (total+r.acc)%2 == 1 // (not in replays of model behaviours: the model reads EOF separately)
 			n, err := r.w.ReadFrom(src)
 			e.K, e.Total, e.N, e.Err = total, src.pos, int(n), werr(err)
 			r.observe(&e, total)
